@@ -57,6 +57,7 @@ class Layouts:
         if root is not None:
             s.rec.setdefault(norm(root.type), (root, sizeof))
     def find(s, name):
+        if name.startswith('re:'): return s.search(name[3:])
         n = norm(name)
         if n in s.rec: return n
         raise LayoutError("no record layout for '%s'" % name)
